@@ -283,8 +283,10 @@ example :
 /-! ## Core: the engine with data refines the recursive specification (fragment) -/
 
 open XalanModel.C01.Core in
-/-- **Refinement for the fragment** value-of / literal result elements / blocks / call-template / choose /
-for-each / apply-templates, with the XPath and pattern layer as an arbitrary oracle (every select, every chosen
+/-- **Refinement for the fragment** value-of / attributes (xsl:attribute and literal ones: guarded adds, so a late
+attribute is dropped exactly as §7.1.3 says) / copy-of, comment, processing-instruction (`emit`: any calls the oracle
+lists, provided they are guarded and carry no empty text — `hO`) / literal result elements / blocks / call-template /
+choose / for-each / apply-templates, with the XPath and pattern layer as an arbitrary oracle (every select, every chosen
 template rule, every branch, every string value may depend on the current node, its position and the size of the
 current node list in any way): whenever the
 recursive specification `instRun` is defined with event list `tr`, the iterative engine (`Core.run`: the
@@ -293,11 +295,12 @@ terminates and delivers exactly the result tree `normalize tr` that XSLT defines
 `_partial`: variables/parameters, attributes, copy, sort keys and the other instructions are outside the
 fragment (their mechanisms are covered separately by `variables_*` and `pending_*`), and the oracle is not tied
 to `Spec.eval` by proof (it is by the correspondence runs). -/
-theorem core_refines_spec_partial (P : Core.Prog) (O : Core.Oracle) (fuel t0 : Nat) (root : Core.SrcNode)
+theorem core_refines_spec_partial (P : Core.Prog) (O : Core.Oracle) (hO : ∀ a n, Core.Plain (O.evs a n))
+    (fuel t0 : Nat) (root : Core.SrcNode)
     (tr : List REv) (h : Core.instRun P O fuel t0 root = some tr) :
     ∃ n, Core.run P O n t0 root = some (normalize tr) := by
   obtain ⟨n, hn⟩ := run_calls P O fuel t0 root tr h
-  have hp := plain_guarded tr (plain_instRun P O fuel t0 root tr h)
+  have hp := plain_guarded tr (plain_instRun P O hO fuel t0 root tr h)
   refine ⟨n, ?_⟩
   simp only [Core.run, hn, if_true]
   rw [(pending_refines_spec tr hp.1 hp.2).2]
